@@ -113,7 +113,7 @@ def _mod(cpath):
     return cpath.rsplit("::", 1)[0] + "::"
 
 
-@rule("R-PARAM-MIRROR", ["C01", "C14"])
+@rule("R-PARAM-MIRROR", ["C01", "C14", "C05", "C06"])
 def r_param_mirror(cx):
     reg = cx.registry()
     table = spec("param_mirror.json")["asymmetric"]
